@@ -192,7 +192,6 @@ def parse_contracts(paths):
 # ----------------------------------------------------------------------------------------------
 
 PTR_FNS = {'get_unchecked_be_u16': 'be_u16_at', 'get_unchecked_be_u32': 'be_u32_at',
-           'get_unchecked_2_byte_array': 'arr2_at', 'get_unchecked_3_byte_array': 'arr3_at',
            'get_unchecked_4_byte_array': 'arr4_at', 'get_unchecked_6_byte_array': 'arr6_at',
            'get_unchecked_8_byte_array': 'arr8_at', 'get_unchecked_16_byte_array': 'arr16_at'}
 INT_FNS = {('u16', 'from_be_bytes'), ('u32', 'from_be_bytes'), ('u64', 'from_be_bytes'), ('u16', 'from_ne_bytes'),
